@@ -51,6 +51,8 @@ class Conc:
             return t[2]
         if h == "none":
             return None
+        if h in ("array", "tuple"):
+            return [self.eval(x, params) for x in t[1]]
         if h == "some":
             return ("some", self.eval(t[1], params))
         if h == "const":
@@ -68,6 +70,8 @@ class Conc:
                 return v is not None
             if t[2] == "None":
                 return v is None
+            if isinstance(v, str):
+                return v == t[2]       # a field-less enum value is represented by its variant name
             raise CannotEvaluate("variant test " + t[2])
         if h in ("and", "or"):
             a = self.eval(t[1], params)
@@ -87,9 +91,15 @@ class Conc:
             return {"+": a + b, "-": a - b, "*": a * b, "/": a / b if h == "/" else None}[h]
         if h == "neg":
             return -self.eval(t[1], params)
+        if h == "cast":
+            v = self.eval(t[1], params)
+            discr = getattr(self.q, "discr", None)
+            if isinstance(v, str) and discr is not None and v in discr:
+                return Fraction(discr[v])      # `variant as integer`: the discriminant
+            raise CannotEvaluate("cast " + T.show(t))
         if h == "app":
             return self.app(t, params)
-        if h == "closure":
+        if h in ("closure", "lam"):
             return t
         raise CannotEvaluate("term " + T.show(t))
 
@@ -109,6 +119,11 @@ class Conc:
             return self.q.tables["name"][self.eval(args[0], params)][1]
         if name == "Quantity::new":
             return ("qty", self.eval(args[0], params), self.eval(args[1], params))
+        if name == "core::slice::<impl [T]>::iter" and len(args) == 1:
+            xs = self.eval(args[0], params)
+            if not isinstance(xs, list):
+                raise CannotEvaluate("slice iteration over a non-constant")
+            return xs
         if name == ITER + "filter":
             xs = self.eval(args[0], params)
             return [x for x in xs if self.call(args[1], [x], params)]
@@ -117,6 +132,12 @@ class Conc:
             for x in xs:
                 if self.call(args[1], [x], params):
                     return ("some", x)
+            return None
+        if name == ITER + "find_map":
+            for x in self.eval(args[0], params):
+                r = self.call(args[1], [x], params)
+                if r is not None:
+                    return r
             return None
         if name == ITER + "last":
             xs = self.eval(args[0], params)
@@ -166,8 +187,8 @@ class Conc:
         raise CannotEvaluate("call " + name)
 
     def call(self, clo_term, values, params):
-        clo = self.eval(clo_term, params) if clo_term[0] != "closure" else clo_term
-        if clo[0] != "closure":
+        clo = self.eval(clo_term, params) if clo_term[0] not in ("closure", "lam") else clo_term
+        if clo[0] not in ("closure", "lam"):
             raise CannotEvaluate("not a closure")
         args = [self.cv(v) for v in values]
         outs = self.ev.summarize_closure(clo, args)
